@@ -9,7 +9,10 @@ with and without an RREL expression written in the grammar, for references in
 a single attribute, a list attribute and a second rule.  Every configuration
 is one real load; the object each reference resolves to (or the error) must be
 the one produced by the first provider in the documented order: grammar RREL,
-'Rule.attr', '*.attr', 'Rule.*', '*.*', default provider.
+'Rule.attr', '*.attr', 'Rule.*', '*.*', default provider.  The references use
+two match rules with different name delimiters (FQN '.', PATH '/'), one- and
+two-part names: a registered RREL string behaves like the same expression
+written in the grammar for each of them.
 """
 import z3
 
@@ -23,9 +26,14 @@ Model: objs+=Obj boxes*=Box users+=User others*=Other;
 Obj: 'obj' name=ID;
 Box: 'box' name=ID '{' objs*=Obj '}';
 User: 'user' name=ID 'ref' r=[Obj%(rrel)s] 'many' rs+=[Obj%(rrel)s] (',' rs+=[Obj%(rrel)s])* ';';
-Other: 'other' name=ID 'ref' r=[Obj] ';';
+Other: 'other' name=ID 'ref' r=[Obj:PATH] ';';
+FQN: ID ('.' ID)*;
+PATH[split='/']: ID ('/' ID)*;
 """
-MODEL = "obj a obj k0 obj k1 obj k2 obj k3 box b { obj a } user u ref a many a, a ; other o ref a ;"
+# the references are written with the name delimiters of their match rules ('.' for FQN, '/' for PATH)
+MODEL = "obj a obj k0 obj k1 obj k2 obj k3 box b { obj a } user u ref a many b.a, a ; other o ref b/a ;"
+REFS = [('User', 'r', 'a'), ('User', 'rs', 'b.a'), ('User', 'rs', 'a'), ('Other', 'r', 'b/a')]
+RREL = 'objs,boxes.objs'
 KEYS = {
     ('User', 'r'): ['User.r', '*.r', 'User.*', '*.*'],
     ('User', 'rs'): ['User.rs', '*.rs', 'User.*', '*.*'],
@@ -34,19 +42,21 @@ KEYS = {
 ALL_KEYS = ['User.r', '*.r', 'User.*', '*.*', 'User.rs', 'Other.r']
 
 
-def expected_for(rule, attr, registered, grammar_rrel):
-    """'top-a' | 'k<i>' | 'unknown' | 'notunique'"""
+def expected_for(rule, attr, registered, grammar_rrel, name='a'):
+    """'top-a' | 'boxed-a' | 'k<i>' | 'unknown' | 'notunique'"""
+    by_rrel = 'top-a' if name == 'a' else 'boxed-a'
     if grammar_rrel and rule == 'User':
-        return 'top-a'
+        return by_rrel
     for k in KEYS[(rule, attr)]:
         if k in registered:
             kind = registered[k]
             if kind == 'rrel':
-                return 'top-a'
+                return by_rrel
             if kind == 'none':
                 return 'unknown'
             return kind          # marker object name
-    return 'notunique'           # default provider: two objects named a
+    # default provider: two objects named a, none with a qualified name
+    return 'notunique' if name == 'a' else 'unknown'
 
 
 class FalsyProvider:
@@ -66,11 +76,11 @@ class FalsyProvider:
 def run_config(registered, grammar_rrel, falsy=False):
     from textx import metamodel_from_str
     from textx.exceptions import TextXSemanticError
-    mm = metamodel_from_str(GRAMMAR % {'rrel': ':ID|objs' if grammar_rrel else ''})
+    mm = metamodel_from_str(GRAMMAR % {'rrel': (':FQN|' + RREL) if grammar_rrel else ':FQN'})
     provs = {}
     for key, kind in registered.items():
         if kind == 'rrel':
-            provs[key] = 'objs'
+            provs[key] = RREL
         elif kind == 'none':
             provs[key] = (lambda obj, attr, ref: None)
         else:
@@ -100,8 +110,7 @@ def _root(obj):
 
 
 def judge(registered, grammar_rrel, falsy=False):
-    refs = [('User', 'r'), ('User', 'rs'), ('User', 'rs'), ('Other', 'r')]
-    exp = [expected_for(r, a, registered, grammar_rrel) for r, a in refs]
+    exp = [expected_for(r, a, registered, grammar_rrel, nm) for r, a, nm in REFS]
     try:
         got = run_config(registered, grammar_rrel, falsy)
     except Exception as e:  # noqa
@@ -124,7 +133,7 @@ def explore(item):
             if c.branch(z3.Bool('reg_%s' % k)):
                 if c.branch(z3.Bool('none_%s' % k)):
                     registered[k] = 'none'
-                elif k in ('*.r', 'User.*') and c.branch(z3.Bool('rrel_%s' % k)):
+                elif k in ('*.r', 'User.*', '*.*') and c.branch(z3.Bool('rrel_%s' % k)):
                     registered[k] = 'rrel'
                 else:
                     registered[k] = 'k%d' % (ALL_KEYS.index(k) % 4)
